@@ -33,11 +33,14 @@ def run(ctx):
     ctx.rule = ("case = (dataset with 3..9 boundary-straddling initialisation times, axis, slice) and (calendar day, hour); "
                 "non-trivial = dataset has >= 2 distinct buckets on some time axis / day is a bucket boundary")
     ctx.assumptions = ["dayofyear is held to an envelope (strictly increasing function of month and day)",
-                       "lead times are non-negative"]
+                       "lead times may lie before the initialisation time (lead-time day truncates toward zero)"]
     if ctx.tier == "quick":
         dscommon.run_family(ctx, "C11", fmt="text", limit=40, always_nontrivial=True, fresh=True)
         dscommon.run_family(ctx, "C11All", fmt="text", always_nontrivial=True)
         dscommon.run_family(ctx, "C11Sel", fmt="text", always_nontrivial=True)
+        # the buckets of a dataset are its own: another dataset (other runs, other lead times) is opened in the same process before the slices are asked for
+        dscommon.run_family(ctx, "C11", fmt="text", limit=40, variant={"decoy": True}, always_nontrivial=True, fresh=False)
+        dscommon.run_family(ctx, "C11All", fmt="text", variant={"decoy": True}, always_nontrivial=True, fresh=False)
         calreplay.run(ctx, "MC_Calendar_quick")
         # the ends of the supported range: 1900 and 2100 are century years without a leap day
         calreplay.run(ctx, "MC_Calendar_edge1900")
@@ -48,6 +51,8 @@ def run(ctx):
         dscommon.run_family(ctx, "C11All", fmt="netcdf", always_nontrivial=True)
         dscommon.run_family(ctx, "C11Sel", fmt="text", always_nontrivial=True)
         dscommon.run_family(ctx, "C11Sel", fmt="netcdf", always_nontrivial=True)
+        dscommon.run_family(ctx, "C11", fmt="text", variant={"decoy": True}, always_nontrivial=True, fresh=False)
+        dscommon.run_family(ctx, "C11All", fmt="text", variant={"decoy": True}, always_nontrivial=True, fresh=False)
         calreplay.run(ctx, "MC_Calendar_full")
         _other_timezone(ctx)
         ctx.exhaustive = True
